@@ -62,7 +62,7 @@ Section Mark.
       | Words ws => fold_o mark_item ws m
       | Elems es => fold_o trace_with es m
       | Items ps => fold_o mark_and_recurse ps m
-      | Leaf => Ok m
+      | NoPtr => Ok m
       end.
 
     (* root loop body of GC_Mark: registered, not marked, root => mark, GC_Recurse *)
@@ -195,7 +195,7 @@ Section ReachExec.
          | Elems es => flat_map go es
          | Items ps => flat_map (fun p => if registered rg p then [p]
                                           else match nget p h with Some c' => targets f c' | None => [] end) ps
-         | Leaf => []
+         | NoPtr => []
          end) c
     end.
 
